@@ -669,10 +669,18 @@ impl MemBrokerService {
 
     pub async fn recover_epoch(&self) -> Result<Vec<String>, MetaStoreError> {
         let proxy_addresses = self.storage.get_proxy_addresses(None, None).await?;
+        #[cfg(undermoon_verif)]
+        let proxy_addresses = if crate::common::verif::max_epoch_injected() {
+            vec![]
+        } else {
+            proxy_addresses
+        };
         let EpochFetchResult {
             max_epoch,
             failed_addresses,
         } = fetch_max_epoch(proxy_addresses).await;
+        #[cfg(undermoon_verif)]
+        let max_epoch = crate::common::verif::injected_max_epoch(max_epoch);
         info!(
             "Get largest epoch {} with failed addresses: {:?}",
             max_epoch, failed_addresses
